@@ -495,7 +495,11 @@ let c14 s b =
        (match shape_point orc rt vm it mat x y z vars with
         | Err _ -> Printf.bprintf b " | out missing"
         | Ok [v] -> Printf.bprintf b " | out %d" (cb v)
-        | Ok _ -> Printf.bprintf b " | out arity"))
+        | Ok _ -> Printf.bprintf b " | out arity"));
+    (* Shape::bind / ShapeVars::check over the same iteration order *)
+    (match vars_check vars it with
+     | None -> Printf.bprintf b " | bind ok"
+     | Some w -> Printf.bprintf b " | bind %d" (int_of_nat w))
 
 
 (* ---- C17: the scripting model ------------------------------------------------------- *)
